@@ -748,7 +748,18 @@ func run(c *rig.Ctx) {
 	var seen [512]int64
 	c.Part("lockstep", nprog, func(i int64, r *rig.Rng) {
 		p := prog.Generate(r, prog.Options{Interrupts: i%3 == 0, AllOpcodes: true})
-		m := rig.MustNew(p.ROM, rig.Opts{})
+		if i%7 == 6 {
+			p = prog.LowAreaRemap(r) // code in 0000-3FFF that remaps 0000-3FFF under itself
+			c.Count("lockstep_low_area_remap_programs", 1)
+		}
+		// one program in five runs with the CPU trace option on
+		popts := rig.Opts{}
+		if i%5 == 3 {
+			popts.DebugCPU = true
+			defer rig.QuietStdout()()
+			c.Count("programs_with_cpu_trace", 1)
+		}
+		m := rig.MustNew(p.ROM, popts)
 		f := lockstep.New(m)
 		f.MemEvery = 16
 		f.Violate = func(prop, class, msg string) {
